@@ -37,6 +37,7 @@ type concretizer struct {
 	dir    string
 	nq     int
 	budget int
+	deadline time.Time // no further solver call after this point: the candidate input stays partly unconstrained
 }
 
 func (cz *concretizer) values(terms []*Term) ([]string, bool) {
@@ -78,12 +79,15 @@ func (cz *concretizer) values(terms []*Term) ([]string, bool) {
 	}
 	sb.WriteString("))\n")
 	cz.nq++
+	if !cz.deadline.IsZero() && time.Now().After(cz.deadline) {
+		return nil, false
+	}
 	file := filepath.Join(cz.dir, fmt.Sprintf("concretize%d.smt2", cz.nq))
 	os.WriteFile(file, []byte(sb.String()), 0o644)
 	defer os.Remove(file)
-	ctx, cancel := context.WithTimeout(context.Background(), 40*time.Second)
+	ctx, cancel := context.WithTimeout(context.Background(), 12*time.Second)
 	defer cancel()
-	out, _ := exec.CommandContext(ctx, "z3-new", "-T:30", file).CombinedOutput()
+	out, _ := exec.CommandContext(ctx, "z3-new", "-T:8", file).CombinedOutput()
 	s := string(out)
 	if !strings.HasPrefix(strings.TrimSpace(s), "sat") {
 		return nil, false
@@ -387,7 +391,12 @@ func TryReplay(e *Engine, r Result, dir, name, scratch string) (string, bool) {
 		}()
 		scriptMu.Lock()
 		defer scriptMu.Unlock()
-		cz := &concretizer{u: u, script: string(base), dir: scratch, budget: 400}
+		cz := &concretizer{u: u, script: string(base), dir: scratch, budget: 400, deadline: time.Now().Add(45 * time.Second)}
+		if r.O.Kind != "safety" {
+			// only a safety obligation can be confirmed by running the candidate input (a panic); for the other kinds
+			// the candidate is informative only: a short budget
+			cz.deadline = time.Now().Add(15 * time.Second)
+		}
 		// prefer counterexamples in the first iteration of loops (their state is reachable from the inputs)
 		for _, pr := range u.loopFirst {
 			if pr[0].S == pr[1].S {
